@@ -496,6 +496,57 @@ CODEC_RESET = {"inflateReset", "inflateReset2", "deflateReset", "LZ4_setStreamDe
                "ZSTD_DCtx_reset", "ZSTD_CCtx_reset", "ZSTD_initDStream", "ZSTD_initCStream"}
 
 
+def codec_scalar_out_rule(chk, prog):
+    """K3-libout: the compressor object is shared by every reader of an image and outlives every query, so a query must not
+    change it.  Stores into it are seen by the state rules; a codec library can write it too, through a pointer: in the
+    functions behind sqfs_compressor_t.do_block, the address of a scalar member of the compressor object is not handed to a
+    function outside the program (liblzma's `memlimit` is an in/out parameter: a block that is refused for its memory
+    demand raises the limit for every later query).  A local copy of the value is what such a parameter gets."""
+    n = 0
+    for f in sorted(prog.slot_impls(("struct.sqfs_compressor_t", "do_block")), key=lambda x: x.qname):
+        if f.decl:
+            continue
+        f.build()
+        cl, _e, _u = prog.reachable_from([f], stop=lambda g, u=f.unit: g.unit is not u)
+        for g in cl:
+            if g.decl:
+                continue
+            g.build()
+            n += 1
+            chk.analysed(g)
+            bad = None
+            for c in g.calls():
+                if not c.callee:
+                    continue
+                t = prog.fn(c.callee, g.unit)
+                if t is not None and not t.decl:
+                    continue
+                nm = norm_callee(c.callee)
+                if nm.startswith("llvm.") or nm in ("memcpy", "memset", "memmove", "memcmp"):
+                    continue
+                for a in c.ops:
+                    q = strip_casts(a)
+                    if not (q.is_inst and q.op == "getelementptr" and q.field()):
+                        continue
+                    if not (getattr(a, "ty", "") or "") in ("i8*", "i16*", "i32*", "i64*"):
+                        continue
+                    root = strip_casts(resolve_ptr(prog, q.ops[0], g.unit)[0])
+                    if root.is_inst and root.op == "alloca":
+                        continue
+                    if strip_casts(a) is q and (q.ty or "") in ("i8*",):
+                        continue            # a byte buffer member, not a scalar
+                    bad = (c, q.field())
+            inst = "%s:scalar-members" % g.name
+            if bad is None:
+                chk.ok("K3-libout", inst, g, "no scalar member of the compressor object is handed to a library by address", nontrivial=False)
+            else:
+                c, fld_ = bad
+                chk.violation("K3-libout", inst, c, "the address of the member '%s' of the compressor object is handed to %s: the "
+                              "library can write it (an in/out parameter), so one query changes what the shared object answers to "
+                              "the next" % (fld_[1], norm_callee(c.callee)))
+    return n
+
+
 def codec_state_rule(chk, prog):
     """K3-statereset: a block is unpacked (and packed) from its own bytes alone.  Where an implementation of
     sqfs_compressor_t.do_block hands library state that lives in the compressor object (the object is shared by every
@@ -1191,6 +1242,8 @@ def run(chk):
     copy_tag_rule(chk, prog)
     chk.floor("K9-copytag", 1)
     codec_state_rule(chk, prog)
+    codec_scalar_out_rule(chk, prog)
+    chk.floor("K3-libout", 4)
     chk.floor("K3-statereset", 1)
     same_bound_rule(chk, prog)       # instances come and go with the code's structure: the controls keep the rule honest
     chk.floor("K9-array", 2)
